@@ -10,6 +10,12 @@ THEOREMS = ["EngineModel.Properties.C03." + t for t in [
     "C03_v2_track_roundtrip", "C03_v2_beat_roundtrip", "C03_v2_ovw_roundtrip",
     "C03_v2_cues_roundtrip", "C03_v2_cues_reject", "C03_v2_loops_roundtrip", "C03_v2_loops_reject",
     "C03_v2_track_total", "C03_v2_beat_total", "C03_v2_ovw_total",
+    "C03_v1_track_readback", "C03_v1_track_roundtrip_partial", "C03_v1_track_roundtrip_counterexample",
+    "C03_v1_track_total", "C03_v1_beat_readback", "C03_v1_beat_roundtrip_partial",
+    "C03_v1_beat_roundtrip_counterexample", "C03_v1_beat_reject", "C03_v1_cues_readback",
+    "C03_v1_cues_roundtrip", "C03_v1_cues_reject", "C03_v1_loops_readback",
+    "C03_v1_loops_roundtrip", "C03_v1_loops_reject", "C03_absent_only_reserved",
+    "C03_v1_ovw_readback", "C03_v1_ovw_roundtrip", "C03_v1_hires_roundtrip",
 ]]
 ASSUMPTIONS = [
     "payload level: the zlib framing is covered by C02/C05 (the tie compares uncompressed payloads, which the harness "
